@@ -38,7 +38,7 @@ Run(s, tr, i) ==
 
 Verdict(r) ==
   LET o == [tool |-> r.o.tool, bak |-> r.o.bak, stale |-> r.o.stale, outx |-> r.o.outx,
-            json |-> r.o.json, changed |-> r.o.changed]
+            json |-> r.o.json, changed |-> r.o.changed, link |-> r.o.link]
       v == IF o \in AllOpts THEN Run(SInit(o), r.tr, 1)
            ELSE [ok |-> FALSE, at |-> 0, why |-> "options", s |-> SInit(o)]
       why == IF ~v.ok THEN v.why
